@@ -7,12 +7,19 @@
    label defined twice, no macro call left after expansion; and expansion fails for unknown macros, too few arguments
    and macros that call themselves directly or through others.  "Fails only in documented ways" (the exception types)
    is decided on the real compiler. *)
-From ES Require Import Base Lang.Ast Lang.SrcSem Lang.Inline Lang.Static Lang.StaticProofs Lang.MacroStatic Lang.MacroStaticProofs.
+From ES Require Import Base Lang.Ast Lang.SrcSem Lang.Inline Lang.Static Lang.StaticProofs Lang.Domain Lang.DomainProofs Lang.MacroStatic Lang.MacroStaticProofs.
 
 Theorem C10_meaning_only_if_well_scoped : forall perf p r,
   cfg_of_prog perf p = Ok r -> well_scoped perf p = true.
 Proof. exact meaning_implies_well_scoped. Qed.
 Print Assumptions C10_meaning_only_if_well_scoped.
+
+(* ... and exactly those, once every condition, header, context, assignment and operation name has an event: the static
+   predicates are not stricter than the specification (a well-scoped program is never left without a meaning) *)
+Theorem C10_domain_exactly : forall perf p,
+  (exists r, cfg_of_prog perf p = Ok r) <-> well_scoped perf p = true /\ events_ok perf p = true.
+Proof. exact meaning_iff. Qed.
+Print Assumptions C10_domain_exactly.
 
 Theorem C10_unknown_macro_rejected : forall p,
   program_has (unknown_macro (p_macros p)) p = true -> is_err (inline p) = true.
